@@ -100,13 +100,13 @@ CHECKS = {
     "C16": dict(
         pkg="c16", race=False, shards=(4, 16), timeout_s=(300, 1800),
         technique="per-operation monitor: recording change listeners vs EstimatedLimit() before/after every OnSample/SetLimit",
-        level_text="Gradient with bounds the constructor accepts although they contradict each other (maximum below the queue allowance or the minimum). Explicit sets to negative values. Gradient / Gradient2 also built below their own minimum; explicit sets to 0. Concurrent variant: in half of the cases 2-8 listeners are registered at the same moment from different goroutines; if any listener heard of a change, all did. For AIMD/Vegas/Gradient/Gradient2/Settable/Fixed and a scripted recorder, bare and under Windowed, Traced and Traced(Windowed): "
+        level_text="Concurrent explicit sets on a SettableLimit (2-6 goroutines, distinct values, pausing listeners; bare / traced / windowed): at rest every listener holds the reported estimate. Gradient with bounds the constructor accepts although they contradict each other (maximum below the queue allowance or the minimum). Explicit sets to negative values. Gradient / Gradient2 also built below their own minimum; explicit sets to 0. Concurrent variant: in half of the cases 2-8 listeners are registered at the same moment from different goroutines; if any listener heard of a change, all did. For AIMD/Vegas/Gradient/Gradient2/Settable/Fixed and a scripted recorder, bare and under Windowed, Traced and Traced(Windowed): "
                    "around every operation the monitor compares EstimatedLimit() before/after, requires every previously registered listener to "
                    "have been called if it changed, requires the last notified value to equal the new estimate, requires the wrapper's estimate "
                    "to equal the delegate's, and requires Traced to forward the sample unchanged. Listeners are registered at random points. "
                    "A concurrent variant (2-6 goroutines feeding one sample-driven algorithm, listeners pausing before they record) requires every "
                    "listener's last value to equal EstimatedLimit() at quiescence. Exploration.",
-        require=["gradient_cases_with_a_maximum_below_queue_allowance_or_minimum", "cases_built_below_the_minimum", "explicit_sets_to_zero", "concurrent_registration_cases", "operations", "estimate_changes", "notifications_checked", "listeners_registered", "traced_forward_checks",
+        require=["concurrent_explicit_set_cases", "gradient_cases_with_a_maximum_below_queue_allowance_or_minimum", "cases_built_below_the_minimum", "explicit_sets_to_zero", "concurrent_registration_cases", "operations", "estimate_changes", "notifications_checked", "listeners_registered", "traced_forward_checks",
                  "concurrent_cases", "concurrent_listener_final_checks"],
         rule="case = (inner limit kind + valid config, wrapper chain, 40-400 ops: OnSample benign/hostile, SetLimit for settable, late NotifyOnChange); "
              "non-trivial = estimate changed at least once with a listener registered; distinct = distinct (config, wrapper, op count, listener count, last op).",
@@ -135,7 +135,7 @@ CHECKS = {
     "C14": dict(
         pkg="c14", race=False, shards=(4, 16), timeout_s=(300, 1800),
         technique="event-sequence monitor over test doubles (recording limiter/listener/handler/invoker/stream, scripted classifiers)",
-        level_text="Calls whose own result is the error of their ended context (context.Canceled / DeadlineExceeded, verbatim); stream operations returning io.EOF, io.ErrUnexpectedEOF, context errors and status errors, followed by further operations on the same wrapper. Shared-interceptor cases use 8-64 goroutines over a real DefaultLimiter with the default limit-exceeded classifier under the scenario watchdog (a wedged limiter is classified as a library-mutex deadlock); default-direction cases: 20 receives parked in the transport, a send is still admitted. One stream in five runs behind another stream interceptor of this package (each gates every operation). Every intercepted call is judged from the recorded event sequence: exactly one Acquire, on the limiter configured for that "
+        level_text="One limit-exceeded classifier in four returns a nil error (it only chooses the code). Calls whose own result is the error of their ended context (context.Canceled / DeadlineExceeded, verbatim); stream operations returning io.EOF, io.ErrUnexpectedEOF, context errors and status errors, followed by further operations on the same wrapper. Shared-interceptor cases use 8-64 goroutines over a real DefaultLimiter with the default limit-exceeded classifier under the scenario watchdog (a wedged limiter is classified as a library-mutex deadlock); default-direction cases: 20 receives parked in the transport, a send is still admitted. One stream in five runs behind another stream interceptor of this package (each gates every operation). Every intercepted call is judged from the recorded event sequence: exactly one Acquire, on the limiter configured for that "
                    "operation (unary / receive / send), before the wrapped call; wrapped call invoked iff granted; exactly one completion whose "
                    "outcome equals the consulted classifier's result (success for an error-free stream op; default classifiers when none configured); "
                    "result and error returned by identity; on refusal nothing else touched and the status code equals the limit-exceeded "
@@ -143,7 +143,7 @@ CHECKS = {
                    "error / limiter objects (identity). The two stream response classifiers are configured independently (a classifier serves one direction only; the other runs on the default); a second stream through "
                    "another interceptor is opened and used in the middle of the first stream's handler. All option combinations incl. defaults, random RecvMsg/SendMsg sequences, plus a shared interceptor over a real "
                    "DefaultLimiter whose in-flight must return to 0. Exploration over seeded inputs.",
-        require=["calls_whose_result_is_the_error_of_their_ended_context", "stream_ops_returning_io_EOF", "default_direction_cases", "streams_behind_another_stream_interceptor", "stream_ops_with_only_one_response_classifier_configured", "streams_opened_while_another_is_open", "unary_calls", "stream_ops", "granted_calls_checked", "refused_calls_checked", "send_ops_on_recording_send_limiter",
+        require=["limit_exceeded_classifiers_returning_a_nil_error", "calls_whose_result_is_the_error_of_their_ended_context", "stream_ops_returning_io_EOF", "default_direction_cases", "streams_behind_another_stream_interceptor", "stream_ops_with_only_one_response_classifier_configured", "streams_opened_while_another_is_open", "unary_calls", "stream_ops", "granted_calls_checked", "refused_calls_checked", "send_ops_on_recording_send_limiter",
                  "recv_ops_on_recording_recv_limiter", "shared_interceptor_calls", "calls_with_a_dead_context"],
         rule="case = unary client/server call (grant/refuse, handler result, classifier result, option subset) or a stream with 1-12 RecvMsg/SendMsg ops "
              "(each with its own grant/error/classifier result) or a shared-interceptor stress; non-trivial = every judged case; distinct = distinct "
@@ -176,7 +176,7 @@ CHECKS = {
     "C09": dict(
         pkg="c09", race=False, shards=(4, 16), timeout_s=(600, 3000),
         technique="recording delegate limit + reference fold, DefaultLimiter driven on a synctest virtual clock (exact RTTs / window boundaries), WindowedLimit on explicit timestamps",
-        level_text="Admission-inside-a-release cases: a fixed-capacity strategy whose tokens call back right after giving their unit back; every completion (success / ignore / drop) is followed at that instant by an admission - no delivered window may report more in flight than the capacity. The algorithm also sits behind the traced decorator (debug logger on / off). Three default-limiter cases in four go through a wrapper (queue FIFO/LIFO, deprecated constructors, blocking, deadline) whose listeners forward the outcome. Concurrent windowed variant: while a slow (yielding) delegate is handed window 1 another goroutine reports samples incl. a drop; exactly one delivered window carries the drop flag. A recording core.Limit receives what the limiter/windowed limit delivers; a reference fold of the qualifying completions since the last "
+        level_text="Simultaneous completions: what is not part of the delivered window must be pending in the next one, all of it (no completion is wiped by the reset another completion's update performs). Admission-inside-a-release cases: a fixed-capacity strategy whose tokens call back right after giving their unit back; every completion (success / ignore / drop) is followed at that instant by an admission - no delivered window may report more in flight than the capacity. The algorithm also sits behind the traced decorator (debug logger on / off). Three default-limiter cases in four go through a wrapper (queue FIFO/LIFO, deprecated constructors, blocking, deadline) whose listeners forward the outcome. Concurrent windowed variant: while a slow (yielding) delegate is handed window 1 another goroutine reports samples incl. a drop; exactly one delivered window carries the drop flag. A recording core.Limit receives what the limiter/windowed limit delivers; a reference fold of the qualifying completions since the last "
                    "delivery runs beside it. Separate sub-oracles: delivered values differ from fold (min RTT resp. mean RTT, max in-flight, drop flag iff any "
                    "drop in the window), delivery of an unready window, delivery before the previous window's period elapsed, ready window not "
                    "delivered at a qualifying completion, delivery triggered by an ignored / below-threshold completion. A third variant completes 2-3 "
